@@ -4,15 +4,6 @@ import RxnModel.Proofs.KeyedStateGroup
 namespace Rxn.KeyedState
 open Rxn Bytes
 
-/-- the composite-key write a logical mutation turns into -/
-def encW (kgc : Nat) (w : LWrite) : Bytes × Option Bytes := (Keys.dbKey kgc w.1 w.2.1 w.2.2.1, w.2.2.2)
-
-/-- the writes an action issues to the DKV, in order -/
-def Act.rawWrites (kgc : Nat) : Act → List (Bytes × Option Bytes)
-  | .apply subj nss => (Act.apply subj nss).lwrites.map (encW kgc)
-  | .timerPut subj t => [(Keys.timerKey kgc subj t, some [])]
-  | .timerDel subj t => [(Keys.timerKey kgc subj t, none)]
-
 /-- the lengths the encoders can represent: subject keys below 2^32 bytes, namespaces at most 255 bytes -/
 def LWrite.WF (w : LWrite) : Prop := w.1.length < 4294967296 ∧ w.2.1.length ≤ 255
 
@@ -177,7 +168,7 @@ theorem decoded_mem (kgc : Nat) (acts : List Act) (hwf : ∀ a ∈ acts, a.WF) (
     (ns, ek, v) ∈ decoded kgc (run kgc [] acts) k ↔ specLookup (acts.flatMap Act.lwrites) k ns ek = some v := by
   constructor
   · intro h
-    simp only [decoded, List.mem_map] at h
+    simp only [decoded, decodedOf, List.mem_map] at h
     obtain ⟨⟨dk, v'⟩, hmem, he⟩ := h
     obtain ⟨ns', ek', hn', hdk, hspec⟩ := scan_char kgc acts hwf k hk dk v' hmem
     simp only [hdk, decode_dbKey kgc k ns' ek' hk hn', Prod.mk.injEq] at he
@@ -194,7 +185,7 @@ theorem decoded_mem (kgc : Nat) (acts : List Act) (hwf : ∀ a ∈ acts, a.WF) (
     have hget := get_run kgc acts hwf k ns ek hk hn
     rw [h] at hget
     have hmem := (KV.mem_iff_get (run_sorted kgc acts) _ v).mpr hget
-    simp only [decoded, List.mem_map]
+    simp only [decoded, decodedOf, List.mem_map]
     refine ⟨(Keys.dbKey kgc k ns ek, v), ?_, ?_⟩
     · simp only [KV.scan, List.mem_filter]
       exact ⟨hmem, by rw [dbKey_eq]; exact hasPrefix_append _ _⟩
@@ -205,12 +196,12 @@ theorem decoded_sorted (kgc : Nat) (acts : List Act) (hwf : ∀ a ∈ acts, a.WF
     (decoded kgc (run kgc [] acts) k).Pairwise (fun a b => cmp (entKey a) (entKey b) = .lt) := by
   constructor
   · intro x hx
-    simp only [decoded, List.mem_map] at hx
+    simp only [decoded, decodedOf, List.mem_map] at hx
     obtain ⟨⟨dk, v'⟩, hmem, he⟩ := hx
     obtain ⟨ns', ek', hn', hdk, _⟩ := scan_char kgc acts hwf k hk dk v' hmem
     simp only [hdk, decode_dbKey kgc k ns' ek' hk hn'] at he
     rw [← he]; exact hn'
-  · simp only [decoded]
+  · simp only [decoded, decodedOf]
     rw [List.pairwise_map]
     have hs : ((run kgc [] acts).scan (Keys.subjectKey kgc k)).Pairwise (fun a b => cmp a.1 b.1 = .lt) :=
       List.Pairwise.filter _ (run_sorted kgc acts)
@@ -349,14 +340,34 @@ theorem batches_lwrites (bs : List Batch) :
   | nil => rfl
   | cons b rest ih => simp only [List.flatMap_cons, List.flatMap_append, batch_acts_lwrites, ih]
 
-/-- the database and the latest checkpoint are the replays of the effective invocations -/
-def OpInv (kgc : Nat) (s : OpState) (e : List Batch × Option (List Batch)) : Prop :=
+/-- the database and every retained checkpoint are the replays of their effective invocations -/
+def OpInv (kgc : Nat) (s : OpState) (e : Eff) : Prop :=
   s.kv = run kgc [] (e.1.flatMap Batch.acts) ∧
-  s.saved = e.2.map (fun bs => run kgc [] (bs.flatMap Batch.acts))
+  s.saved = e.2.map (fun p => (p.1, run kgc [] (p.2.flatMap Batch.acts)))
 
-theorem opInv_init (kgc : Nat) : OpInv kgc {} ([], none) := ⟨rfl, rfl⟩
+theorem opInv_init (kgc : Nat) : OpInv kgc {} ([], []) := ⟨rfl, rfl⟩
 
-theorem opInv_step (kgc : Nat) (s : OpState) (e : List Batch × Option (List Batch)) (x : OpStep)
+theorem lookupCkpt_map {α β : Type} (f : α → β) (l : List (Nat × α)) (id : Nat) :
+    lookupCkpt (l.map (fun p => (p.1, f p.2))) id = (lookupCkpt l id).map f := by
+  induction l with
+  | nil => rfl
+  | cons x xs ih =>
+    simp only [lookupCkpt, List.map_cons, List.find?_cons] at ih ⊢
+    by_cases h : (x.1 == id) = true
+    · simp [h]
+    · simp only [h]; exact ih
+
+theorem keepOnly_map {α β : Type} (f : α → β) (l : List (Nat × α)) (id : Nat) :
+    keepOnly (l.map (fun p => (p.1, f p.2))) id = (keepOnly l id).map (fun p => (p.1, f p.2)) := by
+  induction l with
+  | nil => rfl
+  | cons x xs ih =>
+    simp only [keepOnly, List.map_cons, List.filter_cons] at ih ⊢
+    by_cases h : (x.1 == id) = true
+    · simp [h, ih]
+    · simp [h, ih]
+
+theorem opInv_step (kgc : Nat) (s : OpState) (e : Eff) (x : OpStep)
     (h : OpInv kgc s e) : OpInv kgc (opStep kgc s x).1 (effStep e x) := by
   obtain ⟨h1, h2⟩ := h
   cases x with
@@ -364,13 +375,20 @@ theorem opInv_step (kgc : Nat) (s : OpState) (e : List Batch × Option (List Bat
     refine ⟨?_, h2⟩
     simp only [opStep, effStep, processBatch_fst, h1, List.flatMap_append, List.flatMap_cons, List.flatMap_nil,
       List.append_nil, run_append]
-  | ckpt => exact ⟨h1, by simp [opStep, effStep, h1]⟩
-  | restore =>
-    refine ⟨?_, h2⟩
-    simp only [opStep, effStep, h2]
-    cases e.2 <;> rfl
+  | ckpt id => exact ⟨h1, by simp [opStep, effStep, h1, h2]⟩
+  | restore id =>
+    have hl := lookupCkpt_map (fun bs : List Batch => run kgc [] (bs.flatMap Batch.acts)) e.2 id
+    have hk := keepOnly_map (fun bs : List Batch => run kgc [] (bs.flatMap Batch.acts)) e.2 id
+    constructor
+    · show (lookupCkpt s.saved id).getD [] = _
+      rw [h2, hl]
+      simp only [effStep]
+      cases lookupCkpt e.2 id <;> rfl
+    · show keepOnly s.saved id = _
+      rw [h2, hk]
+      rfl
 
-theorem runOps_get (kgc : Nat) : ∀ (steps : List OpStep) (s : OpState) (e : List Batch × Option (List Batch)),
+theorem runOps_get (kgc : Nat) : ∀ (steps : List OpStep) (s : OpState) (e : Eff),
     OpInv kgc s e → ∀ (i : Nat) (b : Batch), steps[i]? = some (.batch b) →
     (runOps kgc s steps)[i]? = some (some ((distinctKeys b.events).map (fun k =>
       (k, getState kgc (run kgc [] (((steps.take i).foldl effStep e).1.flatMap Batch.acts ++ b.firedActs)) k)))) := by
@@ -390,9 +408,15 @@ theorem runOps_get (kgc : Nat) : ∀ (steps : List OpStep) (s : OpState) (e : Li
       simp only [runOps, List.getElem?_cons_succ, List.take_succ_cons, List.foldl_cons]
       exact ih _ _ (opInv_step kgc s e x hinv) i b h
 
+theorem lookupCkpt_mem {α : Type} {l : List (Nat × α)} {id : Nat} {a : α} (h : lookupCkpt l id = some a) :
+    ∃ p ∈ l, p.2 = a := by
+  simp only [lookupCkpt, Option.map_eq_some_iff] at h
+  obtain ⟨p, hp, e⟩ := h
+  exact ⟨p, List.mem_of_find?_eq_some hp, e⟩
+
 /-- a predicate on batches holds for every effective invocation when it holds for every invocation of the history -/
-theorem eff_all (P : Batch → Prop) : ∀ (steps : List OpStep) (e : List Batch × Option (List Batch)),
-    (∀ b ∈ e.1, P b) → (∀ bs, e.2 = some bs → ∀ b ∈ bs, P b) → (∀ b, OpStep.batch b ∈ steps → P b) →
+theorem eff_all (P : Batch → Prop) : ∀ (steps : List OpStep) (e : Eff),
+    (∀ b ∈ e.1, P b) → (∀ p ∈ e.2, ∀ b ∈ p.2, P b) → (∀ b, OpStep.batch b ∈ steps → P b) →
     ∀ b ∈ (steps.foldl effStep e).1, P b := by
   intro steps
   induction steps with
@@ -408,17 +432,28 @@ theorem eff_all (P : Batch → Prop) : ∀ (steps : List OpStep) (e : List Batch
         rcases hb with hb | hb
         · exact h1 b hb
         · subst hb; exact h3 b List.mem_cons_self
-      | ckpt => exact h1
-      | restore =>
+      | ckpt id => exact h1
+      | restore id =>
         intro b hb
         simp only [effStep] at hb
-        cases he : e.2 with
+        cases he : lookupCkpt e.2 id with
         | none => simp [he] at hb
-        | some bs => rw [he] at hb; exact h2 bs he b hb
+        | some bs =>
+          rw [he] at hb
+          obtain ⟨p, hp, e2⟩ := lookupCkpt_mem he
+          exact h2 p hp b (by rw [e2]; exact hb)
     · cases x with
       | batch b0 => exact h2
-      | ckpt => intro bs hbs b hb; simp only [effStep, Option.some.injEq] at hbs; subst hbs; exact h1 b hb
-      | restore => exact h2
+      | ckpt id =>
+        intro p hp b hb
+        simp only [effStep, List.mem_cons] at hp
+        rcases hp with hp | hp
+        · subst hp; exact h1 b hb
+        · exact h2 p hp b hb
+      | restore id =>
+        intro p hp b hb
+        simp only [effStep, keepOnly, List.mem_filter] at hp
+        exact h2 p hp.1 b hb
     · intro b hb; exact h3 b (List.mem_cons_of_mem _ hb)
 
 end Rxn.KeyedState
